@@ -533,6 +533,8 @@ def enumerated(tier):
     for u in (0, mx + 1, 65535, 256 + 25, 256 + 26, 512 + 7, 256 * 4 + 36, 256 + 5):
         for known in (25, 26, mx):
             yield {"kind": "route", "noise": u == 65535, "frames": [[known, {}], [u, {"hex": "0801"}], [u, {"hex": "0801"}], [u, {"hex": ""}], [known, {}]], "send": []}
+            if u != 65535:  # ... and over the other framing (the 16-bit type field of a Noise frame)
+                yield {"kind": "route", "noise": True, "frames": [[known, {}], [u, {"hex": "0801"}], [u, {"hex": ""}], [known, {}]], "send": []}
     subs = [m for m in _api_methods() if m.startswith("subscribe_")] + ["bluetooth_gatt_start_notify", "bluetooth_device_connect"]
     for v in range(6):
         for stim in (True, "then_wait"):
